@@ -9,7 +9,7 @@ ids=("$@")
 for id in "${ids[@]}"; do
   d=/verif/seeded/$id
   [ -f "$d/patch.diff" ] || continue
-  prop=${id%-*}
+  prop=${id%%-*}
   if [ -n "$(git -C /repo status --porcelain)" ]; then echo "/repo is not clean"; exit 2; fi
   git -C /repo apply "$d/patch.diff" || { echo "$id: patch does not apply"; continue; }
   out=$(./check "$prop" quick 2>&1); rc=$?
